@@ -85,9 +85,12 @@ func c09kauri(args []string) error {
 		subtree := idsToInts(xt.SubTree())
 		children := idsToInts(xt.ReplicaChildren())
 		o.emit(obj{"op": "new", "n": n, "q": q, "bf": bf, "self": int(x.ID), "scheme": scheme, "children": children, "subtree": subtree})
+		var emittedQCs []hotstuff.QuorumCert
+		var emittedSigs []hotstuff.QuorumSignature
 		collect := func(line obj) {
 			var qa, ca []obj
 			for _, qc := range qcs {
+				emittedQCs = append(emittedQCs, qc)
 				valid := true
 				for _, other := range nodes {
 					if other.ID != x.ID {
@@ -100,6 +103,9 @@ func c09kauri(args []string) error {
 			qcs = nil
 			for _, om := range x.TakeOut() {
 				if c, ok := om.Msg.(hx.ContribOut); ok {
+					if c.Sig != nil {
+						emittedSigs = append(emittedSigs, c.Sig)
+					}
 					valid := c.Sig != nil
 					if valid {
 						okv, _, _ := verdict(func() error { return nodes[(int(x.ID))%n].Auth.Verify(c.Sig, b.ToBytes()) })
@@ -157,7 +163,7 @@ func c09kauri(args []string) error {
 			certified = certified || len(qcs) > 0
 			collectC(line)
 		}
-		for step := 0; step < 6+rng.Intn(6) && !certified; step++ {
+		for step := 0; step < 6+rng.Intn(6) && !(certified && x.ID == root.ID); step++ { // (the root starts the next block once a certificate exists; the others keep merging)
 			// the wait timer of a round fires at most once; once a certificate exists the leader moves on to the next block
 			if rng.Intn(9) == 0 && !timerFired {
 				timerFired = true
@@ -225,6 +231,19 @@ func c09kauri(args []string) error {
 			}
 			collect(obj{"op": "contrib", "from": from, "signers": ids, "valid": valid, "view": view, "kind": kind, "panic": pan})
 		}
+		// what left the node earlier must still be what it was: certificates and aggregates are verified again after all traffic
+		bad := 0
+		for _, qc := range emittedQCs {
+			if ok, _, _ := verdict(func() error { return nodes[(int(x.ID))%n].Auth.VerifyQuorumCert(qc) }); !ok {
+				bad++
+			}
+		}
+		for _, sg := range emittedSigs {
+			if ok, _, _ := verdict(func() error { return nodes[(int(x.ID))%n].Auth.Verify(sg, b.ToBytes()) }); !ok {
+				bad++
+			}
+		}
+		o.emit(obj{"op": "recheck", "checked": len(emittedQCs) + len(emittedSigs), "bad": bad})
 		for _, p := range nodes {
 			p.Stop()
 		}
